@@ -312,7 +312,8 @@ def op_tags(pool, op):
                     tags.append("name-clash-at-dest")
     elif name == "insert":
         tags = move_tags(pool, op[3], op[1])
-        tags.append("index-negative" if op[2] < 0 else ("index-beyond-end" if op[2] >= 50 else "index-in-range"))
+        tags.append("index-not-an-int" if not isinstance(op[2], int) else
+                    "index-negative" if op[2] < 0 else ("index-beyond-end" if op[2] >= 50 else "index-in-range"))
     elif name == "set_parent":
         tags = move_tags(pool, op[1], op[2]) if op[2] is not None else ["to-none"]
         if op[2] is None and isinstance(op[1], int):
@@ -374,7 +375,8 @@ def op_tags(pool, op):
             secs, props = tree.children(par)
             n = len(secs if kind(X) == "S" else props)
             i = op[2]
-            tags.append("index-negative" if i < 0 else ("index-beyond-end" if i >= n else "index-in-range"))
+            tags.append("index-not-an-int" if not isinstance(i, int) else
+                        "index-negative" if i < 0 else ("index-beyond-end" if i >= n else "index-in-range"))
     elif name == "rename":
         X = pool[op[1]]
         n = op[2]
@@ -513,7 +515,7 @@ def alphabet(pool, level="full", creations_left=2):
         for x in movable:
             ops.append(["remove", y, x])
     # insert
-    idxs = [0, 1, 99, -1] if full else [0, -1]
+    idxs = [0, 1, 99, -1, 1.0] if full else [0, -1]      # 1.0: a position that is a number but not an int
     for y in cont:
         for i in idxs:
             for x in movable:
@@ -523,7 +525,7 @@ def alphabet(pool, level="full", creations_left=2):
             ops.append(["insert", y, 0, Ds[0]])
     # reorder
     for x in movable:
-        for i in ([-1, 0, 1, 2, 99] if full else [-1, 0, 1]):
+        for i in ([-1, 0, 1, 2, 99, 1.0] if full else [-1, 0, 1]):
             ops.append(["reorder", x, i])
     # item assignment
     for y in cont:
